@@ -5,7 +5,9 @@
 // For each of N histories a fresh backend is created and G real goroutines (4..8) run seeded random
 // WriteCAS / DeleteCAS / Read / List / ListByOwner calls against it while W watcher goroutines (1..2)
 // consume WatchList streams; where the backend supports it a Snapshot is taken at ~40% and restored at
-// ~70% of the operations (mutating calls are held back during the restore only, as Raft's FSM does).
+// ~70% of the operations (mutating calls are held back during the restore only, as Raft's FSM does). On the
+// store backend most histories drive the restore in the API's two steps - Store.Restore()+Apply at ~65%, Commit
+// at ~80% - with every kind of call, writes included, running in between (only Commit itself is exclusive).
 //
 // Recording is hook-free. A process-wide atomic counter gives every log point a position `at`:
 //
@@ -160,9 +162,12 @@ type history struct {
 	uidc, widc atomic.Int64
 	gate       sync.RWMutex // mutating calls hold it shared; restore holds it exclusively
 
-	snapMu  sync.Mutex
-	snap    []*pbresource.Resource
-	hasSnap bool
+	snapMu                 sync.Mutex
+	snap                   []*pbresource.Resource
+	hasSnap                bool
+	begun                  bool // RestoreBegin done
+	fSnap, fBegin, fCommit atomic.Bool
+	window                 bool // restore in two steps with calls running in between (backends implementing resh.Windowed)
 
 	opsDone atomic.Int64
 	total   int64
@@ -337,6 +342,61 @@ func (h *history) restore(l *logger, g int) {
 	// everybody's knowledge is stale now; that is the point.
 }
 
+// restoreBegin / restoreCommit: the two steps of the storage API's restore with the other goroutines' calls
+// (writes included) running in between against the old database; only Restoration.Commit itself is exclusive.
+// The calls acknowledged in the window are discarded by the commit, exactly like everything else after the snapshot.
+func (h *history) restoreBegin(l *logger, g int) {
+	h.snapMu.Lock()
+	snap := h.snap
+	h.snapMu.Unlock()
+	h.call(l, g, M{"t": "rbegin"}, false, func() M {
+		err := h.sut.(resh.Windowed).RestoreBegin(snap)
+		if err == nil {
+			h.snapMu.Lock()
+			h.begun = true
+			h.snapMu.Unlock()
+		}
+		return result(err, nil)
+	})
+}
+
+func (h *history) restoreCommit(l *logger, g int) {
+	h.snapMu.Lock()
+	snap := h.snap
+	h.snapMu.Unlock()
+	h.gate.Lock()
+	defer h.gate.Unlock()
+	h.call(l, g, M{"t": "restore", "rs": resListJ(snap)}, false, func() M {
+		h.sut.(resh.Windowed).RestoreCommit()
+		return result(nil, nil)
+	})
+}
+
+func (h *history) state() (hasSnap, begun bool) {
+	h.snapMu.Lock()
+	defer h.snapMu.Unlock()
+	return h.hasSnap, h.begun
+}
+
+// phases runs the snapshot / restore steps once each, in order, each as soon as the operation count has
+// passed its mark and the previous step has completed.
+func (h *history) phases(l *logger, g int, done int64) {
+	if !h.canSnap {
+		return
+	}
+	hasSnap, begun := h.state()
+	switch {
+	case done >= h.total*4/10 && h.fSnap.CompareAndSwap(false, true):
+		h.snapshot(l, g)
+	case h.window && hasSnap && done >= h.total*13/20 && h.fBegin.CompareAndSwap(false, true):
+		h.restoreBegin(l, g)
+	case h.window && begun && done >= h.total*16/20 && h.fCommit.CompareAndSwap(false, true):
+		h.restoreCommit(l, g)
+	case !h.window && hasSnap && done >= h.total*7/10 && h.fCommit.CompareAndSwap(false, true):
+		h.restore(l, g)
+	}
+}
+
 func (h *history) randQuery(r *rand.Rand) queryT {
 	t := tenancies[r.Intn(len(tenancies))]
 	q := queryT{t[0], t[1], ""}
@@ -432,20 +492,23 @@ func (h *history) worker(g int, r *rand.Rand, n int, l *logger) {
 			}
 		}
 		done := h.opsDone.Add(1)
-		if h.canSnap {
-			if done == h.total*4/10 {
-				h.snapshot(l, g)
-			} else if done == h.total*7/10 {
-				h.restore(l, g)
-			}
-		}
+		h.phases(l, g, done)
 	}
 }
 
 func (h *history) watcher(w int, r *rand.Rand, l *logger, stop *atomic.Bool) {
+	// lagging = a watch that was force-closed (restore) and that this consumer has not Close()d yet: its
+	// subscription keeps the publisher's topic buffer referenced while the consumer already re-subscribes,
+	// as a slow consumer does. It is closed once the next watch delivered its first event.
+	var lagging storage.Watch
+	var q queryT
+	sameQ := false
 	for {
 		wid := h.widc.Add(1)
-		q := h.randQuery(r)
+		if !sameQ {
+			q = h.randQuery(r)
+		}
+		sameQ = false
 		l.add(h.seq.Add(1), M{"e": "wopen", "w": w, "wid": wid, "q": q.j()})
 		watch, err := h.sut.WatchList(h.ctx, utyp, &pbresource.Tenancy{Partition: q.P, Namespace: q.N}, q.Pre)
 		if err != nil {
@@ -463,6 +526,9 @@ func (h *history) watcher(w int, r *rand.Rand, l *logger, stop *atomic.Bool) {
 			ev, err := watch.Next(h.ctx)
 			if h.ctx.Err() != nil {
 				watch.Close()
+				if lagging != nil {
+					lagging.Close()
+				}
 				return
 			}
 			if err != nil {
@@ -470,7 +536,15 @@ func (h *history) watcher(w int, r *rand.Rand, l *logger, stop *atomic.Bool) {
 					fatal(2, "Watch.Next: unexpected error: %v", err)
 				}
 				l.add(h.seq.Add(1), M{"e": "wev", "w": w, "wid": wid, "ph": phase, "kind": "closed", "r": []any{}})
+				if lagging == nil && r.Intn(4) != 0 {
+					lagging, watch = watch, nil
+					sameQ = r.Intn(4) != 0
+				}
 				break
+			}
+			if lagging != nil {
+				lagging.Close()
+				lagging = nil
 			}
 			var res *pbresource.Resource
 			kind := ""
@@ -514,7 +588,9 @@ func (h *history) watcher(w int, r *rand.Rand, l *logger, stop *atomic.Bool) {
 				break // voluntary re-subscription
 			}
 		}
-		watch.Close()
+		if watch != nil {
+			watch.Close()
+		}
 	}
 }
 
@@ -549,6 +625,9 @@ func runHistory(hn int, backend string, seed int64, ops, gN, wN int, seq *atomic
 	}
 	ctx, cancel := context.WithCancel(context.Background())
 	h := &history{sut: sut, seq: seq, ctx: ctx, latest: map[keyT]kv{}, old: map[keyT][]kv{}, canSnap: backend != "inmem"}
+	if _, ok := sut.(resh.Windowed); ok && r.Intn(4) != 0 {
+		h.window = true
+	}
 	// 3..5 contended keys out of 9
 	var all []keyT
 	for _, t := range tenancies {
@@ -592,6 +671,9 @@ func runHistory(hn int, backend string, seed int64, ops, gN, wN int, seq *atomic
 	finished := make(chan struct{})
 	go func() {
 		gwg.Wait()
+		if _, begun := h.state(); h.window && begun && h.fCommit.CompareAndSwap(false, true) {
+			h.restoreCommit(logs[gN+wN], 99) // the window stayed open until the workers were done
+		}
 		stop.Store(true)
 		// fence writes: the last events of every tenancy; watchers stop once they have seen them
 		ml := logs[gN+wN]
@@ -738,10 +820,13 @@ func writeHistory(hn int, backend string, gN, wN int, h *history, evs []event, o
 //
 //	publish-gap:   (inmem.Store whose publisher goroutine is started late = a slow publisher) two writes of X; watch
 //	               opened; publisher starts; the listing; whatever the watch delivers within 300ms.
+//	restore-window: watch A open; write X; snapshot; Store.Restore()+Apply; write X again (acknowledged, will be
+//	               discarded); Restoration.Commit(); A force-closed but not Close()d; watch B; B's listing and whatever
+//	               follows; a real write after the restore; what B delivers; B declares itself done.
 //	restore-stale: watch A open; write X; snapshot; write X again; restore; watch B opened while A's
 //	               subscription still exists; B's listing; then whatever B delivers within 300ms.
-func scenario(name, backend string, seq *atomic.Int64, out *bufio.Writer, st *stats) {
-	if name != "restore-stale" && name != "publish-gap" {
+func scenario(name, backend string, hn int, seq *atomic.Int64, out *bufio.Writer, st *stats) {
+	if name != "restore-stale" && name != "publish-gap" && name != "restore-window" {
 		fatal(2, "unknown scenario %q", name)
 	}
 	var sut resh.SUT
@@ -837,7 +922,43 @@ func scenario(name, backend string, seq *atomic.Int64, out *bufio.Writer, st *st
 		}
 		a.w.Close()
 		sut.Close()
-		writeHistory(0, "store/"+name, 1, 1, h, l.copyOut(), out, st)
+		writeHistory(hn, "store/"+name, 1, 1, h, l.copyOut(), out, st)
+		return
+	}
+	if name == "restore-window" {
+		// a write acknowledged between Store.Restore() and Restoration.Commit(): it is discarded by the commit;
+		// nobody may be told about it afterwards, and what happens after the restore must still be delivered.
+		if _, ok := sut.(resh.Windowed); !ok {
+			fatal(2, "scenario %s needs backend store", name)
+		}
+		a := open(100)
+		next(100, a, 5*time.Second) // eos
+		h.write(l, 0, x, "u1", "", 11, nil)
+		next(100, a, 5*time.Second) // X first version
+		h.snapshot(l, 0)
+		h.restoreBegin(l, 0)
+		cur, _ := h.known(x)
+		h.write(l, 0, x, "u1", cur.ver, 22, nil) // in the window
+		next(100, a, 5*time.Second)              // A is told (old timeline, fine)
+		h.restoreCommit(l, 0)
+		next(100, a, 5*time.Second) // closed; A not Close()d yet
+		b := open(101)
+		next(101, b, 5*time.Second) // listing: X first version
+		next(101, b, 5*time.Second) // eos
+		for next(101, b, 300*time.Millisecond) {
+		}
+		rv, ok := h.read(l, 0, x, "", true)
+		if ok {
+			h.write(l, 0, x, rv.uid, rv.ver, 33, nil) // a real write after the restore
+		}
+		next(101, b, 10*time.Second) // B must be told
+		for next(101, b, 300*time.Millisecond) {
+		}
+		l.add(seq.Add(1), M{"e": "wdone", "w": 101, "wid": b.wid})
+		a.w.Close()
+		b.w.Close()
+		sut.Close()
+		writeHistory(hn, backend+"/"+name, 1, 2, h, l.copyOut(), out, st)
 		return
 	}
 	a := open(100)
@@ -859,7 +980,7 @@ func scenario(name, backend string, seq *atomic.Int64, out *bufio.Writer, st *st
 	b.w.Close()
 	sut.Close()
 	h.keys = []keyT{x}
-	writeHistory(0, backend+"/"+name, 1, 2, h, l.copyOut(), out, st)
+	writeHistory(hn, backend+"/"+name, 1, 2, h, l.copyOut(), out, st)
 }
 
 func main() {
@@ -872,7 +993,7 @@ func main() {
 	first := flag.Int("first", 0, "number of the first history")
 	outp := flag.String("out", "", "output ndjson")
 	stall := flag.Int("stall", 30, "seconds without any progress after which a history is recorded as stalled")
-	scen := flag.String("scenario", "", "run a fixed sequential script instead of random histories (restore-stale)")
+	scen := flag.String("scenario", "", "run a fixed sequential script instead of random histories (restore-stale | restore-window | publish-gap)")
 	flag.Parse()
 	if *outp == "" {
 		fatal(2, "-out required")
@@ -886,7 +1007,7 @@ func main() {
 	var seq atomic.Int64
 	st := &stats{Classes: map[string]int{}}
 	if *scen != "" {
-		scenario(*scen, *backend, &seq, out, st)
+		scenario(*scen, *backend, *first, &seq, out, st)
 		*n = 0
 	}
 	for i := 0; i < *n; i++ {
